@@ -116,7 +116,7 @@ def run(run, want, tier):
         run.count('corpus', 'extra_inputs', len(extra))
     except ImportError:
         pass
-    n_mut = {'quick': 6, 'thorough': 60}[tier]
+    n_mut = {'quick': 6, 'thorough': 30}[tier]
     # Most of these ~390 classes are outside the Lean model and several still have recorded defects on
     # malformed input; the quick tier therefore mutates with a FIXED stream (the same inputs on every run and
     # seed, so a run is reproducible and its findings are exactly the recorded ones), the thorough tier
